@@ -40,6 +40,7 @@ Fairness of the Go scheduler (an enabled goroutine is eventually run) is the rem
 -/
 import Mqtt.Proofs.RingTerm
 import Mqtt.Proofs.RingFacts
+import Mqtt.Proofs.RingContract
 
 set_option linter.unusedSimpArgs false
 set_option linter.unusedVariables false
@@ -327,6 +328,505 @@ theorem C15_ReadFrom_waits_only_when_full (cfg : Cfg) (adv gate : Nat) (progP pr
       omega
     · exact hp.2.2
 
+/-! ## The ring at CALL level: the contract of `RingA` (`Model/Lifecycle.lean`), derived
+
+`Model/Lifecycle.lean` (Core F, property C16) sees each ring of a connection as `RingA` = (bytes buffered,
+`done`) with one atomic step per ring call — `RingA.waitSpace`, `commitP`, `waitData`, `commitC`, `close` —, a
+call that waits being a step that is not enabled.  The theorems below derive that view from the ring program:
+`absRing s = (pseq - cseq, done)`, `ringCfg cfg` = the life-cycle configuration with `cap = size`.
+
+* `C15_step_refines_ringA`            every step of the ring program is invisible through `absRing` or IS one
+                                      of `RingA.commitP` (+n, producer only), `RingA.commitC` (-n, consumer
+                                      only), `RingA.close`; nothing else changes what `RingA` sees;
+* `C15_single_writer`                 only `p` moves `pseq`, only `c` moves `cseq`, `done` only goes up, and only
+                                      at the first statement of `Close`;
+* `C15_call_refines_ringA_producer`   `Write(l)` / `WriteWait(l)` / `WriteCommit(l)` from call to return, under any
+                                      interleaving: outcome, linearisation point, net effect, and parked = guard false;
+* `C15_call_refines_ringA_consumer`   the same for `ReadWait(n)` / `ReadPeek(n)` and `ReadCommit(n)`;
+* `C15_call_refines_ringA_close`      the same for `Close` (any thread), and what `done` does to the others;
+* `C15_readfrom_refines_ringA`        `ReadFrom`'s loop iteration = wait-for-one-byte, read, commit, deferred `Close`;
+* `C15_parked_iff_guard_false`        a quiescent state, thread by thread.
+
+**Where `RingA` is STRONGER than the ring** (NOTES-ringlife.md): `RingA` tests `done` and the cursors in one
+atomic step; the ring program (and buffer.go) tests them at two different statements of a call.  So a producer
+call answers `ok` if the ring was open when the call STARTED and there is space when it commits — also when
+`Close` has come in between (`C15_ringA_gap_late_commit`) —, and a consumer wait answers end-of-stream if the
+data was missing at its last cursor test and `done` is set at its `done` test — also when the data has been
+committed in between (`C15_ringA_gap_eof_with_data`).  In the equations below the `done` flag of the other
+moment is written `asOpen` / `asClosed`. -/
+
+open Mqtt.Model.Lifecycle (RingA Ret)
+
+/-- **Every step of the ring program is a `RingA` step or invisible.**  In a reachable state, a step of thread
+`t` standing at program counter `pc`: unless `pc` is a cursor store or the `done` store (`visOf pc = tau`) the step
+does not change `absRing`; the cursor store of `Write`/`WriteCommit` is taken by the producer only, with
+`buf + n ≤ cap` before it, and is `RingA.commitP … n = ok` (on the ring with `done` as the call saw it: open);
+the cursor store of `Read`/`ReadCommit` is taken by the consumer only, with `n ≤ buf`, and is `RingA.commitC`;
+the first statement of `Close` is `RingA.close`. -/
+theorem C15_step_refines_ringA (cfg : Cfg) (adv gate : Nat) (progP progC : List Call) (progsK : List (List Call))
+    (hgate : gate ≤ adv) (hok : ProgsOK progP progC progsK) (sched : List Tid) (t : Tid) (th : Th) (s' : St) :
+    let s := reach cfg adv gate progP progC progsK sched
+    s.getTh t = some th → step cfg s t = some s' →
+    match visOf th.pc with
+    | .tau => absRing s' = absRing s
+    | .prod n => t = .p ∧ (absRing s).buf + n ≤ (ringCfg cfg).cap ∧
+        absRing s' = { absRing s with buf := (absRing s).buf + n } ∧
+        RingA.commitP (ringCfg cfg) (asOpen (absRing s)) n = some (.ok, asOpen (absRing s'))
+    | .cons n => t = .c ∧ n ≤ (absRing s).buf ∧ RingA.commitC (ringCfg cfg) (absRing s) n = some (absRing s')
+    | .close => RingA.close (ringCfg cfg) (absRing s) = some (absRing s') := by
+  intro s hth hs
+  have h := (C15_invariant cfg adv gate progP progC progsK hgate hok sched).safe
+  have hv := vis_step cfg adv s s' t th h hth hs
+  cases hvis : visOf th.pc with
+  | tau =>
+    rw [hvis] at hv
+    simp only
+    obtain ⟨a, b, c⟩ := hv
+    exact absRing_ext s s' (by rw [a, b]) c
+  | prod n =>
+    rw [hvis] at hv
+    simp only
+    obtain ⟨rfl, a, b, c, d⟩ := hv
+    obtain ⟨x, y, z⟩ := linP_ringA cfg n s s' h.glob.cp ⟨hs, d, a, b, c⟩
+    exact ⟨rfl, x, y, z⟩
+  | cons n =>
+    rw [hvis] at hv
+    simp only
+    obtain ⟨rfl, a, b, c, d⟩ := hv
+    obtain ⟨x, y⟩ := linC_ringA cfg n s s' ⟨hs, d, a, b, c⟩
+    exact ⟨rfl, x, y⟩
+  | close =>
+    rw [hvis] at hv
+    simp only
+    obtain ⟨a, b, c⟩ := hv
+    exact linX_ringA cfg t s s' ⟨hs, c, a, b⟩
+
+/-- **Single writer.**  In a reachable state a step of a thread other than the producer leaves `pseq`, a step of a
+thread other than the consumer leaves `cseq`, and `done` changes only at the first statement of `Close`, which
+sets it.  (So the net effect of a call on `absRing` is what its own steps do, whatever runs in between.) -/
+theorem C15_single_writer (cfg : Cfg) (adv gate : Nat) (progP progC : List Call) (progsK : List (List Call))
+    (hgate : gate ≤ adv) (hok : ProgsOK progP progC progsK) (sched : List Tid) (t : Tid) (s' : St) :
+    let s := reach cfg adv gate progP progC progsK sched
+    step cfg s t = some s' →
+    (t ≠ .p → s'.sh.pseq = s.sh.pseq) ∧ (t ≠ .c → s'.sh.cseq = s.sh.cseq) ∧
+    (s.sh.pseq ≤ s'.sh.pseq ∧ s.sh.cseq ≤ s'.sh.cseq) ∧
+    (s'.sh.done = s.sh.done ∨ ∃ th, s.getTh t = some th ∧ th.pc = .x10 ∧ s'.sh.done = true) := by
+  intro s hs
+  have h := (C15_invariant cfg adv gate progP progC progsK hgate hok sched).safe
+  exact ⟨step_pseq cfg adv s s' t h hs, step_cseq cfg adv s s' t h hs, step_mono cfg adv s s' t h hs, step_done cfg s s' t hs⟩
+
+/-- **Producer calls refine `RingA.waitSpace` / `RingA.commitP`.**  In a reachable state `s` let the producer be
+about to call `Write(l)`, `WriteWait(l)` or `WriteCommit` (which commits `l = min n filled` bytes); let `sched` be
+ANY schedule (steps of the consumer, of closers and of the producer itself, in any order) and `a` the state after it.
+
+(1) If the call has returned in `a` with result `r`, then `r.err` is `ok`, end-of-stream or `ErrBufferFull`, and
+* `full`: `cap < l`, i.e. `RingA.waitSpace` answers `full`; `pseq` is what it was;
+* end-of-stream: `done` is set in `a` — so `RingA.waitSpace` answers `eof` there — and `pseq` is what it was;
+* `ok`: the ring was open when the call started (`done = false` in `s`: the call's own `isDone` test comes later
+  and has seen `false`); for `Write`/`WriteCommit` the result is `l`, `pseq` has grown by exactly `l`, and ONE own
+  step `x → y` of the call — the linearisation point — has `buf + l ≤ cap` before it and adds `l` to `buf`,
+  changing nothing else: it is `RingA.commitP (asOpen x) l = ok`; for `WriteWait`, `pseq` is what it was and
+  `buf + l ≤ cap` holds in `a` (and from then on, until the producer's next commit): `RingA.waitSpace (asOpen a) l = ok`.
+  (`done` may have been set between the start of the call and that point: `C15_ringA_gap_late_commit`.)
+
+(2) If no thread can take a step in `a`, the call is unfinished exactly when the producer is parked inside it
+and `RingA.waitSpace (absRing a) l = none`: blocked = the life-cycle step is not enabled.
+
+That the producer's own steps touch neither `cseq` nor `done`, and other threads' steps not `pseq`: `C15_single_writer`. -/
+theorem C15_call_refines_ringA_producer (cfg : Cfg) (adv gate : Nat) (progP progC : List Call) (progsK : List (List Call))
+    (hgate : gate ≤ adv) (hok : ProgsOK progP progC progsK) (sched0 : List Tid)
+    (call : Call) (rest : List Call) (hk : (∃ n, call = .write n) ∨ (∃ n, call = .wwait n) ∨ ∃ m, call = .wcommit m)
+    (sched : List Tid) :
+    let s := reach cfg adv gate progP progC progsK sched0
+    s.P.pc = .idle → s.P.prog = call :: rest →
+    let l := amount call s.P
+    let c := ringCfg cfg
+    let a := run cfg s sched
+    (∀ r, pRet a rest r →
+      (r.err = .ok ∨ r.err = .eof ∨ r.err = .full) ∧
+      (r.err = .full → c.cap < l ∧ RingA.waitSpace c (absRing a) l = some (.full, absRing a) ∧ a.sh.pseq = s.sh.pseq) ∧
+      (r.err = .eof → a.sh.done = true ∧ a.sh.pseq = s.sh.pseq ∧
+        (l ≤ c.cap → RingA.waitSpace c (absRing a) l = some (.eof, absRing a))) ∧
+      (r.err = .ok → s.sh.done = false ∧
+        (commits call = true → r.n = l ∧ a.sh.pseq = s.sh.pseq + l ∧
+          ∃ pre post, sched = pre ++ .p :: post ∧
+            step cfg (run cfg s pre) .p = some (run cfg s (pre ++ [.p])) ∧
+            (absRing (run cfg s pre)).buf + l ≤ c.cap ∧
+            absRing (run cfg s (pre ++ [.p])) = { absRing (run cfg s pre) with buf := (absRing (run cfg s pre)).buf + l } ∧
+            RingA.commitP c (asOpen (absRing (run cfg s pre))) l = some (.ok, asOpen (absRing (run cfg s (pre ++ [.p]))))) ∧
+        (commits call = false → a.sh.pseq = s.sh.pseq ∧
+          RingA.waitSpace c (asOpen (absRing a)) l = some (.ok, asOpen (absRing a))))) ∧
+    ((∀ t, step cfg a t = none) →
+      (¬ pOver rest a ↔
+        (pParked a.P.pc = true ∧ a.P.cur = some call ∧ a.P.prog = rest ∧ RingA.waitSpace c (absRing a) l = none))) := by
+  intro s hidle hprog l c a
+  have hlive := C15_invariant cfg adv gate progP progC progsK hgate hok sched0
+  have h := hlive.safe
+  refine ⟨fun r hret => ?_, fun hq => ?_⟩
+  · obtain ⟨a1, a2, a3, a4, a5, a6⟩ := pcall_start cfg adv call rest hk s sched h hidle hprog r hret
+    have ha : RInv cfg adv a := rinv_run cfg adv s sched h
+    refine ⟨a1, ?_, ?_, ?_⟩
+    · intro hf
+      obtain ⟨x, y⟩ := a3 hf
+      exact ⟨x, ra_waitSpace_full c _ l x, y⟩
+    · intro he
+      obtain ⟨x, y⟩ := a2 he
+      exact ⟨x, y, fun hl => ra_waitSpace_eof c rfl _ l x hl⟩
+    · intro ho
+      refine ⟨a4 ho, ?_, ?_⟩
+      · intro hc
+        obtain ⟨b1, b2, pre, post, b3, b4⟩ := a5 ho hc
+        have hx : RInv cfg adv (run cfg s pre) := rinv_run cfg adv s pre h
+        obtain ⟨x, y, z⟩ := linP_ringA cfg l _ _ hx.glob.cp b4
+        exact ⟨b1, b2, pre, post, b3, b4.1, x, y, z⟩
+      · intro hc
+        obtain ⟨b1, b2⟩ := a6 ho hc
+        refine ⟨b1, ra_waitSpace_ok c _ l rfl ?_⟩
+        have hcp : a.sh.cseq ≤ a.sh.pseq := ha.glob.cp
+        have b2' : a.sh.pseq + l ≤ a.sh.cseq + cfg.size := b2
+        show a.sh.pseq - a.sh.cseq + l ≤ cfg.size
+        omega
+  · have hk' := plainP_amount call s.P hk
+    have hph : PPhase cfg call l rest s := .notStarted hidle hprog rfl
+    have hqz := pcall_quiescent cfg adv call l rest hk' s sched hlive hph hq
+    constructor
+    · intro hno
+      rcases hqz with ho | ⟨ppos, h1, h2, h3, h4, h5, h6⟩
+      · exact absurd ho hno
+      · refine ⟨by rw [h1]; rfl, h2, h3, ?_⟩
+        rw [Mqtt.Proofs.Lifecycle.waitSpace_none_iff]
+        exact ⟨h5, h4, by simpa [c] using h6⟩
+    · rintro ⟨hpk, _, hpr, _⟩ ho
+      rcases ho with ⟨_, hi⟩ | hlt
+      · rw [hi] at hpk; simp [pParked] at hpk
+      · rw [hpr] at hlt; exact Nat.lt_irrefl _ hlt
+
+/-- **Consumer calls refine `RingA.waitData` / `RingA.commitC`.**  In a reachable state `s` let the consumer be
+between two calls, `sched` any schedule, `a` the state after it.
+
+(A) `ReadWait(n)` (`w = true`, waits for `n` bytes) resp. `ReadPeek(n)` (`w = false`, waits for one byte, hands out
+at most `n`) is the next call.  (1) If it has returned with `r`: the consumer cursor is what it was (no effect);
+`r.err = full` iff `cap < n` (`RingA.waitData` answers `full`); end-of-stream only with `done` set in `a` and
+fewer than the awaited bytes buffered when the call started — hence at every cursor test of the call:
+`RingA.waitData (asClosed s) = eof` —; otherwise the `r.n` bytes handed out (`= n`, no error, for `ReadWait`) are
+buffered in `a`, and stay so until the consumer's own next commit: `RingA.waitData (absRing a) n = ok`, whether
+or not the ring is closed (bytes committed before `Close` are still handed out).  (An end-of-stream answer while
+the bytes ARE there at that moment is possible: `C15_ringA_gap_eof_with_data`.)
+(2) If nothing can run in `a`: the call is unfinished exactly when the consumer is parked inside it and
+`RingA.waitData (absRing a) (need w n) = none`.
+
+(B) `ReadCommit(m)` is the next call; it commits `l = min m (bytes looked at)`.  (1) If it has returned:
+`ErrBufferFull` iff `cap < l` (no effect), else `ok`, result `l`, `cseq` has grown by exactly `l`, and one own step
+`x → y` IS `RingA.commitC (absRing x) l = some (absRing y)`, with `l ≤ buf` before it.  (2) It never waits. -/
+theorem C15_call_refines_ringA_consumer (cfg : Cfg) (adv gate : Nat) (progP progC : List Call) (progsK : List (List Call))
+    (hgate : gate ≤ adv) (hok : ProgsOK progP progC progsK) (sched0 : List Tid) (rest : List Call) (sched : List Tid) :
+    let s := reach cfg adv gate progP progC progsK sched0
+    let c := ringCfg cfg
+    let a := run cfg s sched
+    s.C.pc = .idle →
+    (∀ w n, s.C.prog = waitCall w n :: rest →
+      (∀ r, cRet a rest r →
+        a.sh.cseq = s.sh.cseq ∧ (r.err = .full ↔ c.cap < n) ∧
+        (r.err = .full → RingA.waitData c (absRing a) n = some (.full, absRing a)) ∧
+        (r.err = .eof → a.sh.done = true ∧ (absRing s).buf < need w n ∧
+          RingA.waitData c (asClosed (absRing s)) (need w n) = some (.eof, asClosed (absRing s))) ∧
+        (r.err ≠ .eof → r.err ≠ .full → waitRes w n r ∧ r.n ≤ (absRing a).buf ∧
+          (w = true → RingA.waitData c (absRing a) n = some (.ok, absRing a)))) ∧
+      ((∀ t, step cfg a t = none) →
+        (¬ cOver rest a ↔
+          (cParked a.C.pc = true ∧ a.C.cur = some (waitCall w n) ∧ a.C.prog = rest ∧
+            RingA.waitData c (absRing a) (need w n) = none)))) ∧
+    (∀ m, s.C.prog = .commit m :: rest →
+      (∀ r, cRet a rest r →
+        (r.err = .full ↔ c.cap < min m s.C.pending.length) ∧ (r.err = .full → a.sh.cseq = s.sh.cseq) ∧
+        (r.err ≠ .full → r.err = .ok ∧ r.n = min m s.C.pending.length ∧
+          a.sh.cseq = s.sh.cseq + min m s.C.pending.length ∧
+          ∃ pre post, sched = pre ++ .c :: post ∧
+            step cfg (run cfg s pre) .c = some (run cfg s (pre ++ [.c])) ∧
+            min m s.C.pending.length ≤ (absRing (run cfg s pre)).buf ∧
+            RingA.commitC c (absRing (run cfg s pre)) (min m s.C.pending.length) = some (absRing (run cfg s (pre ++ [.c]))))) ∧
+      ((∀ t, step cfg a t = none) → cOver rest a)) := by
+  intro s c a hidle
+  have hlive := C15_invariant cfg adv gate progP progC progsK hgate hok sched0
+  have h := hlive.safe
+  have hsz : 1 ≤ cfg.size := size_pos cfg
+  refine ⟨fun w n hprog => ⟨fun r hret => ?_, fun hq => ?_⟩, fun m hprog => ⟨fun r hret => ?_, fun hq => ?_⟩⟩
+  · obtain ⟨a1, a2, a3, a4⟩ := wcall_start cfg adv w n rest s sched h hidle hprog r hret
+    refine ⟨a1, a2, fun hf => ra_waitData_full c _ n (a2.mp hf), ?_, ?_⟩
+    · intro he
+      obtain ⟨x, y⟩ := a3 he
+      have hnf : ¬ cfg.size < n := fun hb => by have := a2.mpr hb; rw [he] at this; cases this
+      have hneed : need w n ≤ cfg.size := by cases w <;> simp [need] <;> omega
+      exact ⟨x, y, ra_waitData_eof c rfl _ _ hneed (by simpa using y) rfl⟩
+    · intro hne hnf
+      obtain ⟨x, y⟩ := a4 hne hnf
+      refine ⟨x, y, fun hw => ?_⟩
+      have hnfit : ¬ cfg.size < n := fun hb => hnf (a2.mpr hb)
+      refine ra_waitData_ok c _ n (by show n ≤ cfg.size; omega) ?_
+      have := (x.2.1 hw).1
+      rw [this] at y
+      exact y
+  · have hph : WPhase cfg w n rest s := .notStarted hidle hprog
+    have hqz := wcall_quiescent cfg adv w n rest s sched hlive hph hq
+    constructor
+    · intro hno
+      rcases hqz with ho | ⟨cpos, h1, h2, h3, h4, h5, h6⟩
+      · exact absurd ho hno
+      · refine ⟨by rw [h1]; rfl, h2, h3, ?_⟩
+        rw [Mqtt.Proofs.Lifecycle.waitData_none_iff]
+        have hneed : need w n ≤ cfg.size := by cases w <;> simp [need] <;> omega
+        exact ⟨hneed, by simpa using h6, h4⟩
+    · rintro ⟨hpk, _, hpr, _⟩ ho
+      rcases ho with ⟨_, hi⟩ | hlt
+      · rw [hi] at hpk; simp [cParked] at hpk
+      · rw [hpr] at hlt; exact Nat.lt_irrefl _ hlt
+  · obtain ⟨a1, a2, a3⟩ := ccall_start cfg adv m rest s sched h hidle hprog r hret
+    refine ⟨a1, a2, fun hne => ?_⟩
+    obtain ⟨b0, b1, b2, pre, post, b3, b4⟩ := a3 hne
+    obtain ⟨x, y⟩ := linC_ringA cfg _ _ _ b4
+    exact ⟨b0, b1, b2, pre, post, b3, b4.1, x, y⟩
+  · exact ccall_quiescent cfg adv m (min m s.C.pending.length) rest s sched hlive (.notStarted hidle hprog rfl) hq
+
+/-- **`Close` refines `RingA.close`, and `done` enables every other call.**  In a reachable state `s` let thread `t`
+(producer, consumer or a closer) be about to call `Close`; `sched` any schedule, `a` the state after it.
+(1) If the call has returned: it returns `ok`, `done` is set in `a`, and one own step `x → y` — its first statement —
+IS `RingA.close (absRing x) = some (absRing y)`: `done := true`, cursors untouched (`Close` is always enabled).
+(2) If nothing can run in `a`: nobody is inside `Close` — it never waits (`C15_CloseTerminates`: seven own steps,
+kept from stepping only by a mutex whose holder is enabled) —, and if `done` is set in `a` (by this `Close` or
+any other) NO call is unfinished: every call that was parked when `done` was set has returned — with end-of-stream,
+or, its condition having been met meanwhile, with its data / space (parts (1) of the producer and consumer
+contracts say which) —, the `RingA` steps that `done` enables. -/
+theorem C15_call_refines_ringA_close (cfg : Cfg) (adv gate : Nat) (progP progC : List Call) (progsK : List (List Call))
+    (hgate : gate ≤ adv) (hok : ProgsOK progP progC progsK) (sched0 : List Tid) (t : Tid) (th : Th) (rest : List Call)
+    (sched : List Tid) :
+    let s := reach cfg adv gate progP progC progsK sched0
+    let c := ringCfg cfg
+    let a := run cfg s sched
+    s.getTh t = some th → th.pc = .idle → th.prog = .close :: rest →
+    (∀ r, tRet a t rest r →
+      r.err = .ok ∧ a.sh.done = true ∧
+      ∃ pre post, sched = pre ++ t :: post ∧
+        step cfg (run cfg s pre) t = some (run cfg s (pre ++ [t])) ∧
+        RingA.close c (absRing (run cfg s pre)) = some (absRing (run cfg s (pre ++ [t])))) ∧
+    ((∀ u, step cfg a u = none) →
+      (∀ u thu, a.getTh u = some thu → closeRank thu.pc = 0) ∧
+      (a.sh.done = true → ∀ u thu, a.getTh u = some thu → thu.pc = .idle ∧ thu.prog = [])) := by
+  intro s c a hth hidle hprog
+  have hlive := C15_invariant cfg adv gate progP progC progsK hgate hok sched0
+  have hla : Live cfg adv a := live_run cfg adv s sched hlive
+  refine ⟨fun r hret => ?_, fun hq => ⟨fun u thu hu => quiescent_no_close cfg adv a hla hq u thu hu, fun hd u thu hu => ?_⟩⟩
+  · obtain ⟨a1, a2, pre, post, b3, b4⟩ := xcall_start cfg t rest s sched th hth hidle hprog r hret
+    exact ⟨a1, a2, pre, post, b3, b4.1, linX_ringA cfg t _ _ b4⟩
+  · rcases quiescent_legit cfg adv a hla.safe hla.lock hla.nlwc hla.nlwp hq u thu hu with x | ⟨_, _, _, b⟩ | ⟨_, _, _, b⟩
+    · exact x
+    · rw [hd] at b; cases b
+    · rw [hd] at b; cases b
+
+/-- **`ReadFrom`'s loop iteration refines the receiver's ring steps** (`Model/Lifecycle.lean`: `.space` =
+`waitSpace 1`, `.read` of at most `readMax = min rblock (cap - buf)` bytes, `.commit n` = `commitP n`, `.close`).
+In every reachable state:
+(1) at mark 112 — `waitForWriteSpace(1)` has returned `ok` — one byte is free: `buf + 1 ≤ cap` (the guard of
+    `RingA.waitSpace … 1 = ok`; it stays true: only the consumer changes `buf` until the commit);
+(2) at mark 111 the slice handed to the socket read has at most `cap - buf` bytes (and at least one, at most a read
+    block: `C15_ReadFrom_reads_nonempty`);
+(3) when the read has returned `n` bytes, and inside the `WriteCommit(n)` that follows up to and including its
+    cursor store, `buf + n ≤ cap` (`InvA.rcommit` of the life-cycle model): that `WriteCommit` finds its space —
+    it never waits (`C15_ReadFrom_waits_only_when_full`) —, and its cursor store is `RingA.commitP … n = ok`
+    (`C15_step_refines_ringA`);
+(4) `ReadFrom` returns only through its deferred `Close`: the step at the last statement of `Close` in the frame
+    `rfret n e` returns `(n, e)` and the ring is closed then (the receiver's `.close` step);
+(5) if nothing can run and the producer, unfinished, is inside `ReadFrom`'s own `waitForWriteSpace(1)`, it is parked in `waitForWriteSpace(1)` and
+    `RingA.waitSpace (absRing s) 1 = none`: the ring is open and completely full. -/
+theorem C15_readfrom_refines_ringA (cfg : Cfg) (adv gate : Nat) (progP progC : List Call) (progsK : List (List Call))
+    (hgate : gate ≤ adv) (hok : ProgsOK progP progC progsK) (sched : List Tid) :
+    let s := reach cfg adv gate progP progC progsK sched
+    let c := ringCfg cfg
+    (∀ tot ms ppos, s.P.pc = .g112 tot ms ppos → (absRing s).buf + 1 ≤ c.cap) ∧
+    (∀ tot ms start len, s.P.pc = .g111 tot ms start len → len ≤ c.cap - (absRing s).buf) ∧
+    (∀ tot ms n, s.P.pc = .g111r tot ms n → (absRing s).buf + n ≤ c.cap) ∧
+    (∀ tot ms n, s.P.cur = some (.rfcommit tot ms) → (wfsArg s.P.pc = some n ∨ ∃ ppos, s.P.pc = .c50 n ppos) →
+      (absRing s).buf + n ≤ c.cap) ∧
+    (∀ n e s', s.P.pc = .x16 → s.P.cur = some (.rfret n e) → step cfg s .p = some s' →
+      s'.P.pc = .idle ∧ s'.P.res = some { n := n, err := e } ∧ s'.sh.done = true) ∧
+    ((∀ t, step cfg s t = none) → ¬ (s.P.pc = .idle ∧ s.P.prog = []) → ∀ tot ms, s.P.cur = some (.rfrom tot ms) →
+      pParked s.P.pc = true ∧ RingA.waitSpace c (absRing s) 1 = none) := by
+  intro s c
+  have hlive := C15_invariant cfg adv gate progP progC progsK hgate hok sched
+  have h := hlive.safe
+  have hcp : s.sh.cseq ≤ s.sh.pseq := h.glob.cp
+  have hp := h.invP.pcinv
+  unfold pcP at hp
+  refine ⟨?_, ?_, ?_, ?_, ?_, ?_⟩
+  · intro tot ms ppos hpc
+    rw [hpc] at hp
+    have e1 : ppos = s.sh.pseq := hp.1
+    have e2 : ppos + 1 ≤ s.sh.cseq + cfg.size := hp.2
+    show s.sh.pseq - s.sh.cseq + 1 ≤ cfg.size
+    omega
+  · intro tot ms start len hpc
+    rw [hpc] at hp
+    have e1 : start = s.sh.pseq := hp.1
+    have e2 : start + len ≤ s.sh.cseq + cfg.size := hp.2
+    show len ≤ cfg.size - (s.sh.pseq - s.sh.cseq)
+    omega
+  · intro tot ms n hpc
+    rw [hpc] at hp
+    have e2 : s.sh.pseq + n ≤ s.sh.cseq + cfg.size := hp.2
+    show s.sh.pseq - s.sh.cseq + n ≤ cfg.size
+    omega
+  · intro tot ms n hcur hpc
+    have := rfcommit_fits cfg adv s h tot ms n hcur hpc
+    show s.sh.pseq - s.sh.cseq + n ≤ cfg.size
+    omega
+  · intro n e s' hpc hcur hs
+    have hD : DInv s := dinv_run cfg _ sched (dinv_init cfg adv gate progP progC progsK)
+    have hdone := close_return_done cfg s s' .p s.P hD rfl hpc hs
+    obtain ⟨hst, _, _⟩ := step_p cfg s s' hs
+    have hcr := tstep_crash _ _ _ _ _ hst
+    cases hP : s.P with
+    | mk pc prog cur slice filled view pending res =>
+      rw [hP] at hst hpc hcur
+      simp only at hpc hcur
+      subst hpc hcur
+      simp only [tstep, Bool.false_eq_true, ↓reduceIte, hcr, Option.some.injEq, Prod.mk.injEq, closeRet] at hst
+      rw [← hst.2]
+      exact ⟨rfl, rfl, hdone⟩
+  · intro hq hnf tot ms hcur
+    rcases C15_ReadFrom_waits_only_when_full cfg adv gate progP progC progsK hgate hok sched hq with hfin | ⟨hpk, hd, hfull, _⟩
+    · exact absurd hfin hnf
+    · refine ⟨hpk, ?_⟩
+      rw [Mqtt.Proofs.Lifecycle.waitSpace_none_iff]
+      have this' : s.sh.pseq = s.sh.cseq + cfg.size := hfull tot ms hcur
+      refine ⟨size_pos cfg, hd, ?_⟩
+      show cfg.size < s.sh.pseq - s.sh.cseq + 1
+      omega
+
+/-- **Blocked = not enabled, thread by thread.**  In a reachable state in which no thread can take a step:
+the producer is unfinished exactly when it is parked in `waitForWriteSpace(n)` with the ring open and
+`cap < buf + n` — i.e. `RingA.waitSpace (absRing s) n = none` (for `n ≤ cap`, which the call-level theorems supply:
+`n` is the call's argument and larger requests were refused at once) —; the consumer is unfinished exactly when it
+is parked in `ReadWait(n)` / `ReadPeek` with the ring open and fewer than `need` bytes buffered —
+`RingA.waitData (absRing s) need = none` — or in `Read` with the ring open and empty; closers are never unfinished. -/
+theorem C15_parked_iff_guard_false (cfg : Cfg) (adv gate : Nat) (progP progC : List Call) (progsK : List (List Call))
+    (hgate : gate ≤ adv) (hok : ProgsOK progP progC progsK) (sched : List Tid) :
+    let s := reach cfg adv gate progP progC progsK sched
+    let c := ringCfg cfg
+    (∀ t, step cfg s t = none) →
+    (¬ (s.P.pc = .idle ∧ s.P.prog = []) ↔
+      ∃ n ppos, s.P.pc = .s36w n ppos ∧ s.sh.done = false ∧ c.cap < (absRing s).buf + n ∧
+        (n ≤ c.cap → RingA.waitSpace c (absRing s) n = none)) ∧
+    (¬ (s.C.pc = .idle ∧ s.C.prog = []) ↔
+      (∃ w n cpos, s.C.pc = .p86w w n cpos ∧ s.sh.done = false ∧ (absRing s).buf < need w n ∧
+        (n ≤ c.cap → RingA.waitData c (absRing s) (need w n) = none)) ∨
+      (∃ n cpos, s.C.pc = .r77w n cpos ∧ s.sh.done = false ∧ (absRing s).buf = 0)) ∧
+    (∀ (i : Nat) (th : Th), s.K[i]? = some th → th.pc = .idle ∧ th.prog = []) := by
+  intro s c hq
+  have hlive := C15_invariant cfg adv gate progP progC progsK hgate hok sched
+  have h := hlive.safe
+  have hcp : s.sh.cseq ≤ s.sh.pseq := h.glob.cp
+  have hsz : 1 ≤ cfg.size := size_pos cfg
+  refine ⟨⟨fun hnf => ?_, ?_⟩, ⟨fun hnf => ?_, ?_⟩, fun i th hth => ?_⟩
+  · rcases quiescent_legit cfg adv s h hlive.lock hlive.nlwc hlive.nlwp hq .p s.P rfl with hf | ⟨hc, _⟩ | ⟨_, hpk, hns, hd⟩
+    · exact absurd hf hnf
+    · cases hc
+    · have hp := h.invP.pcinv
+      unfold pcP at hp
+      cases hpc : s.P.pc <;> rw [hpc] at hpk hns hp <;> simp only [pParked, Bool.false_eq_true] at hpk
+      rename_i n ppos
+      have e1 : ppos = s.sh.pseq := hp.1
+      have hns' : ppos + n > s.sh.cseq + cfg.size := hns
+      have hb : cfg.size < s.sh.pseq - s.sh.cseq + n := by omega
+      refine ⟨n, ppos, rfl, hd, hb, fun hn => ?_⟩
+      rw [Mqtt.Proofs.Lifecycle.waitSpace_none_iff]
+      exact ⟨hn, hd, hb⟩
+  · rintro ⟨n, ppos, hpc, _⟩ ⟨hi, _⟩
+    rw [hpc] at hi; cases hi
+  · rcases quiescent_legit cfg adv s h hlive.lock hlive.nlwc hlive.nlwp hq .c s.C rfl with hf | ⟨_, hpk, hns, hd⟩ | ⟨hc, _⟩
+    · exact absurd hf hnf
+    · have hp := h.invC.pcinv
+      unfold pcC at hp
+      cases hpc : s.C.pc <;> rw [hpc] at hpk hns hp <;> simp only [cParked, Bool.false_eq_true] at hpk
+      · rename_i n cpos
+        right
+        have e1 : cpos = s.sh.cseq := hp
+        have hns' : s.sh.pseq ≤ cpos := hns
+        exact ⟨n, cpos, rfl, hd, by show s.sh.pseq - s.sh.cseq = 0; omega⟩
+      · rename_i w n cpos
+        left
+        have e1 : cpos = s.sh.cseq := hp
+        have hns' : mustWait w n cpos s.sh.pseq = true := hns
+        have hb : s.sh.pseq - s.sh.cseq < need w n := by
+          subst e1
+          cases w <;> simp [mustWait, need] at hns' ⊢ <;> omega
+        refine ⟨w, n, cpos, rfl, hd, hb, fun hn => ?_⟩
+        rw [Mqtt.Proofs.Lifecycle.waitData_none_iff]
+        have hneed : need w n ≤ cfg.size := by
+          have hn' : n ≤ cfg.size := hn
+          cases w <;> simp [need] <;> omega
+        exact ⟨hneed, hb, hd⟩
+    · cases hc
+  · rintro (⟨w, n, cpos, hpc, _⟩ | ⟨n, cpos, hpc, _⟩) ⟨hi, _⟩
+    · rw [hpc] at hi; cases hi
+    · rw [hpc] at hi; cases hi
+  · rcases quiescent_legit cfg adv s h hlive.lock hlive.nlwc hlive.nlwp hq (.k i) th hth with hf | ⟨hc, _⟩ | ⟨hc, _⟩
+    · exact hf
+    · cases hc
+    · cases hc
+
+/-! ### where `RingA` is stronger than the ring: the two gaps, as closed executions on a 4-byte ring -/
+
+/-- **Gap 1 — a producer commit after `Close`.**  Ring of 4 bytes, full; the producer is parked in `Write(2)`
+(30 producer steps: `Write(4)`, then `Write(2)` up to `pcond.Wait`); a closer runs `Close` COMPLETELY (8 steps; `done` is
+set, the producer is woken but not scheduled); the consumer runs `ReadWait(2)`, reads, `ReadCommit(2)` COMPLETELY (two
+bytes are free now); then the producer re-evaluates only its space condition (`for cpos = cseq.get(); wrap > cpos; …` —
+`done` is tested inside the loop body), finds it false, copies, and commits: `Write` returns `(2, nil)`, `pseq` goes
+4 → 6, with `done = true` in every state since before the consumer even started.  In `RingA`, `commitP` on a closed ring
+answers end-of-stream and leaves `buf` alone.  The contract that does hold is `C15_call_refines_ringA_producer`:
+open when the call STARTED, space when it commits. -/
+theorem C15_ringA_gap_late_commit :
+    let cfg : Cfg := { k := 2, src := fun i => UInt8.ofNat (i + 1) }
+    let c := ringCfg cfg
+    let progs := reach cfg 0 0 [.write 4, .write 2] [.rwait 2, .use, .commit 2] [[.close]]
+    let s1 := progs (List.replicate 30 .p)
+    let s2 := progs (List.replicate 30 .p ++ List.replicate 8 (.k 0))
+    let s3 := progs (List.replicate 30 .p ++ List.replicate 8 (.k 0) ++ List.replicate 30 .c)
+    let s4 := progs (List.replicate 30 .p ++ List.replicate 8 (.k 0) ++ List.replicate 30 .c ++ List.replicate 12 .p)
+    -- parked in Write(2), ring full and open
+    (pParked s1.P.pc = true ∧ s1.P.cur = some (.write 2) ∧ absRing s1 = { buf := 4, done := false } ∧
+      RingA.waitSpace c (absRing s1) 2 = none) ∧
+    -- Close has returned
+    ((s2.K.map (·.pc)) = [.idle] ∧ (s2.K.map (·.res)) = [some {}] ∧ absRing s2 = { buf := 4, done := true } ∧
+      pParked s2.P.pc = true) ∧
+    -- the consumer's three calls have returned, two bytes consumed
+    (s3.C.pc = .idle ∧ s3.C.prog = [] ∧ absRing s3 = { buf := 2, done := true } ∧ pParked s3.P.pc = true ∧
+      RingA.commitP c (absRing s3) 2 = some (.eof, absRing s3)) ∧
+    -- Write(2) returns ok and has committed
+    (s4.P.pc = .idle ∧ s4.P.prog = [] ∧ s4.P.res = some { n := 2 } ∧ absRing s4 = { buf := 4, done := true } ∧
+      s4.sh.pseq = 6) := by
+  decide +kernel
+
+/-- **Gap 2 — end-of-stream although the bytes are there.**  Empty ring of 4 bytes.  The consumer's `ReadWait(2)` has
+taken `ccond.L`, tested the producer cursor (nothing there) and stands before its `isDone` test (5 consumer steps); the
+producer's `Write(2)` stores the cursor and waits for `ccond.L` to broadcast; a closer's `Close` stores `done` and waits for
+`ccond.L` too; the consumer tests `done`, unlocks and returns end-of-stream — in a state with 2 bytes buffered, where
+`RingA.waitData … 2` answers `ok`.  Its next `ReadWait(2)` returns those 2 bytes: end-of-stream, then data.  (In `RingA`
+end-of-stream needs `buf < n` and `done` at the same moment, and nothing is committed to a closed ring afterwards.)
+The contract that does hold is `C15_call_refines_ringA_consumer`: too little data when the call looked, `done` when it returned. -/
+theorem C15_ringA_gap_eof_with_data :
+    let cfg : Cfg := { k := 2, src := fun i => UInt8.ofNat (i + 1) }
+    let c := ringCfg cfg
+    let progs := reach cfg 0 0 [.write 2] [.rwait 2, .rwait 2] [[.close]]
+    let s1 := progs (List.replicate 5 .c ++ List.replicate 30 .p ++ List.replicate 8 (.k 0))
+    let s2 := progs (List.replicate 5 .c ++ List.replicate 30 .p ++ List.replicate 8 (.k 0) ++ List.replicate 2 .c)
+    let s3 := progs (List.replicate 5 .c ++ List.replicate 30 .p ++ List.replicate 8 (.k 0) ++ List.replicate 2 .c ++
+                     List.replicate 12 .p ++ List.replicate 8 (.k 0) ++ List.replicate 12 .c)
+    (s1.C.pc = .p84 true 2 0 ∧ s1.P.pc = .w43 2 ∧ (s1.K.map (·.pc)) = [.x14] ∧ absRing s1 = { buf := 2, done := true }) ∧
+    (s2.C.pc = .idle ∧ (s2.C.res.map (·.err)) = some .eof ∧ absRing s2 = { buf := 2, done := true } ∧
+      RingA.waitData c (absRing s2) 2 = some (.ok, absRing s2)) ∧
+    (s3.C.pc = .idle ∧ s3.C.prog = [] ∧ (s3.C.res.map (fun r => (r.n, r.err))) = some (2, .ok) ∧
+      s3.P.pc = .idle ∧ (s3.K.map (·.pc)) = [.idle]) := by
+  decide +kernel
+
 /-! non-vacuity: a blocked reader is woken by data, a blocked reader is woken by Close -/
 
 def exCfg : Cfg := { k := 2, src := fun i => UInt8.ofNat (i + 1) }
@@ -365,5 +865,85 @@ example :
     s.P.pc = .idle ∧ s.P.prog = [] ∧ s.P.res = some { n := 0, err := .eof } ∧ s.sh.pseq = 4 ∧
       s.sh.pL = none ∧ s.sh.cL = none ∧ s.sh.done = true := by
   decide +kernel
+
+/-! non-vacuity of the call-level contract, on a ring of 4 bytes -/
+
+/-- `C15_call_refines_ringA_producer` (2): `Write(2)` on a full ring with nobody else around parks; nothing can run;
+the call is not over, and `RingA.waitSpace … 2 = none` -/
+example :
+    let s := reach exCfg 0 0 [.write 4, .write 2] [] [] (List.replicate 13 .p)
+    let a := run exCfg s (List.replicate 20 .p)
+    s.P.pc = .idle ∧ s.P.prog = [.write 2] ∧ amount (.write 2) s.P = 2 ∧
+    step exCfg a .p = none ∧ step exCfg a .c = none ∧ a.K = [] ∧
+    pParked a.P.pc = true ∧ a.P.cur = some (.write 2) ∧ a.P.prog = [] ∧
+    RingA.waitSpace (ringCfg exCfg) (absRing a) 2 = none := by decide +kernel
+
+/-- `C15_call_refines_ringA_producer` (1): the same call, parked, is released by the consumer's `ReadCommit(2)` and
+returns `ok`: `pseq` has grown by 2, the linearisation step is the 7th producer step after the wake-up (`w42`), where
+`buf + 2 ≤ cap` holds and `RingA.commitP … 2 = ok` -/
+example :
+    let s := reach exCfg 0 0 [.write 4, .write 2] [.rwait 2, .use, .commit 2] [] (List.replicate 13 .p)
+    let sched := List.replicate 20 .p ++ List.replicate 30 .c ++ List.replicate 12 .p
+    let pre := List.replicate 20 .p ++ List.replicate 30 .c ++ List.replicate 6 .p
+    let a := run exCfg s sched
+    let x := run exCfg s pre
+    let y := run exCfg s (pre ++ [.p])
+    s.P.pc = .idle ∧ s.P.prog = [.write 2] ∧ s.sh.done = false ∧
+    pParked (run exCfg s (List.replicate 20 .p)).P.pc = true ∧
+    pRet a [] { n := 2 } ∧ a.sh.pseq = s.sh.pseq + 2 ∧
+    sched = pre ++ .p :: List.replicate 5 .p ∧ x.P.pc = .w42 2 4 ∧ (step exCfg x .p).isSome = true ∧
+    absRing x = { buf := 2 } ∧ absRing y = { buf := 4 } ∧
+    RingA.commitP (ringCfg exCfg) (asOpen (absRing x)) 2 = some (.ok, asOpen (absRing y)) := by decide +kernel
+
+/-- `C15_call_refines_ringA_consumer` (A): `ReadWait(2)` on an empty ring parks (`RingA.waitData … 2 = none`); `Close` from
+another thread releases it: end-of-stream, `done` set, too little data when the call started -/
+example :
+    let s := reach exCfg 0 0 [] [.rwait 2] [[.close]] []
+    let q := run exCfg s (List.replicate 8 .c)
+    let a := run exCfg s (List.replicate 8 .c ++ List.replicate 8 (.k 0) ++ List.replicate 6 .c)
+    s.C.pc = .idle ∧ s.C.prog = [waitCall true 2] ∧
+    cParked q.C.pc = true ∧ RingA.waitData (ringCfg exCfg) (absRing q) (need true 2) = none ∧
+    cRet a [] { err := .eof } ∧ a.sh.done = true ∧ a.sh.cseq = s.sh.cseq ∧ (absRing s).buf < need true 2 ∧
+    RingA.waitData (ringCfg exCfg) (asClosed (absRing s)) (need true 2) = some (.eof, asClosed (absRing s)) := by
+  decide +kernel
+
+/-- `C15_call_refines_ringA_consumer` (A) with data and (B): `ReadWait(2)` with 3 bytes buffered returns `ok`
+(`RingA.waitData … 2 = ok`); after looking at the bytes, `ReadCommit(2)` returns `ok`, `cseq` has grown by 2, and its third
+own step (`k102`) IS `RingA.commitC … 2` -/
+example :
+    let s0 := reach exCfg 0 0 [.write 3] [.rwait 2, .use, .commit 2] [] (List.replicate 20 .p)
+    let a0 := run exCfg s0 (List.replicate 6 .c)
+    let s := run exCfg s0 (List.replicate 10 .c)
+    let a := run exCfg s (List.replicate 7 .c)
+    let x := run exCfg s (List.replicate 3 .c)
+    let y := run exCfg s (List.replicate 3 .c ++ [.c])
+    s0.C.pc = .idle ∧ s0.C.prog = [waitCall true 2, .use, .commit 2] ∧
+    cRet a0 [.use, .commit 2] { n := 2 } ∧ RingA.waitData (ringCfg exCfg) (absRing a0) 2 = some (.ok, absRing a0) ∧
+    s.C.pc = .idle ∧ s.C.prog = [.commit 2] ∧ min 2 s.C.pending.length = 2 ∧
+    cRet a [] { n := 2 } ∧ a.sh.cseq = s.sh.cseq + 2 ∧ x.C.pc = .k102 2 0 ∧ (step exCfg x .c).isSome = true ∧
+    RingA.commitC (ringCfg exCfg) (absRing x) 2 = some (absRing y) ∧ absRing x = { buf := 3 } ∧ absRing y = { buf := 1 } := by
+  decide +kernel
+
+/-- `C15_call_refines_ringA_close`: `Close` by a closer thread: eight own steps, returns `ok`; its second step (the first
+statement of `Close`) IS `RingA.close` -/
+example :
+    let s := reach exCfg 0 0 [] [] [[.close]] []
+    let a := run exCfg s (List.replicate 8 (.k 0))
+    let x := run exCfg s [.k 0]
+    let y := run exCfg s ([.k 0] ++ [.k 0])
+    s.getTh (.k 0) = some { prog := [.close] } ∧ a.getTh (.k 0) = some { res := some {} } ∧ a.sh.done = true ∧
+    (x.K.map (·.pc)) = [.x10] ∧ (step exCfg x (.k 0)).isSome = true ∧ RingA.close (ringCfg exCfg) (absRing x) = some (absRing y) ∧
+    absRing x = {} ∧ absRing y = { done := true } := by decide +kernel
+
+/-- `C15_readfrom_refines_ringA`: `ReadFrom` on a 4-byte ring with read block 2: at mark 112 one byte is free, at mark 111
+the slice has 2 ≤ `cap - buf` bytes, the `WriteCommit(2)` it calls fits, and its cursor store is `RingA.commitP … 2 = ok` -/
+example :
+    let cfg : Cfg := { k := 2, src := fun i => UInt8.ofNat (i + 1), rblock := 2 }
+    let r := fun k => reach cfg 0 0 [.rfrom 0 [4, 4, 4]] [] [[.close]] (List.replicate k .p)
+    (r 4).P.pc = .g112 0 [4, 4, 4] 0 ∧ (absRing (r 4)).buf + 1 ≤ (ringCfg cfg).cap ∧
+    (r 5).P.pc = .g111 0 [4, 4, 4] 0 2 ∧ 2 ≤ (ringCfg cfg).cap - (absRing (r 5)).buf ∧
+    (r 9).P.pc = .g111r 0 [4, 4] 2 ∧
+    (r 12).P.pc = .c50 2 0 ∧ (r 12).P.cur = some (.rfcommit 2 [4, 4]) ∧ visOf (r 12).P.pc = .prod 2 ∧
+    RingA.commitP (ringCfg cfg) (asOpen (absRing (r 12))) 2 = some (.ok, asOpen (absRing (r 13))) := by decide +kernel
 
 end Mqtt.Properties.C15
